@@ -341,6 +341,52 @@ func mutate(v reflect.Value) {
 	}
 }
 
+// scramble: every text reachable from the addressable value v gets other content of the SAME length (strings are
+// replaced, byte slices overwritten in place); nothing else changes
+func scramble(v reflect.Value) {
+	switch v.Kind() {
+	case reflect.String:
+		v.SetString(strings.Repeat("#", len(v.String())))
+	case reflect.Ptr:
+		if !v.IsNil() {
+			scramble(v.Elem())
+		}
+	case reflect.Struct:
+		for i := 0; i < v.NumField(); i++ {
+			scramble(v.Field(i))
+		}
+	case reflect.Slice:
+		for i := 0; i < v.Len(); i++ {
+			if v.Index(i).Kind() == reflect.Uint8 {
+				v.Index(i).SetUint('#')
+			} else {
+				scramble(v.Index(i))
+			}
+		}
+	case reflect.Map:
+		for _, k := range v.MapKeys() {
+			nv := reflect.New(v.Type().Elem()).Elem()
+			nv.Set(v.MapIndex(k))
+			scramble(nv)
+			v.SetMapIndex(k, nv)
+		}
+	}
+}
+
+// laterCopies: what a Copy handed out must survive the later calls of the same method - two more Copy calls, on a value
+// of the same shape and text LENGTHS but other text content (a buffer recycled between calls would fit it exactly)
+func laterCopies(ins inspector.Inspector, t reflect.Type, form, value string) {
+	defer func() { _ = recover() }()
+	tw := newOf(t, value)
+	scramble(tw.Elem())
+	var a any = tw.Interface()
+	if form == "v" {
+		a = tw.Elem().Interface()
+	}
+	_, _ = ins.Copy(a)
+	_, _ = ins.Copy(a)
+}
+
 // after Copy/CopyTo: structure, DeepEqual, source intact, sharing by address and by mutation
 func judge(ins inspector.Inspector, srcArg any, src, cp reflect.Value, before string) string {
 	deq := func() (r string) {
@@ -381,6 +427,7 @@ func init() {
 			return "e=" + ErrName(err)
 		}
 		cp := reflect.ValueOf(r).Elem()
+		laterCopies(ins, t, form, value)
 		if args[0] == "raw" {
 			return "e=nil;d=" + DumpB(cp)
 		}
